@@ -27,10 +27,16 @@ class LemmaSet:
         self.lemma_time_budget = 420.0       # seconds of wall clock per lemma; exceeding it = not decided
         self.time_box_deadline = None        # quick tier: do not start lemmas after this instant
         self.skipped = []
+        self.shard = None                    # (k, n): this process runs only the lemmas whose running number % n == k
+        self._lemma_no = 0
 
     # ------------------------------------------------------------------ running lemmas
     def lemma(self, name, fn):
         """Run one lemma body; Unsupported => undecided (sound by refusal)."""
+        no = self._lemma_no
+        self._lemma_no += 1
+        if self.shard is not None and no % self.shard[1] != self.shard[0]:
+            return
         if self.time_box_deadline is not None and time.time() > self.time_box_deadline:
             self.skipped.append(name)
             return
